@@ -88,14 +88,6 @@ func (d *zzRDA) Get(ctx context.Context, ids []coreda.ID, ns []byte) ([]coreda.B
 	return out, nil
 }
 
-func (e *zzEnv) zzDataBlob(sl *zzSlot) []byte {
-	bz, _ := sl.data.MarshalBinary()
-	sig, _ := e.signer.Sign(bz)
-	sd := &types.SignedData{Data: *sl.data, Signature: sig, Signer: types.Signer{PubKey: e.pub, Address: e.addr}}
-	out, _ := sd.MarshalBinary()
-	return out
-}
-
 const (
 	zzBlobEmpty = iota
 	zzBlobHeader1
